@@ -241,6 +241,8 @@ pub enum AOp {
     Boundary(u64, Option<i32>),
     Children(u64),
     Parent(u64),
+    ChildrenTo(u64, i32),
+    ParentTo(u64, i32),
     Compact(Vec<u64>),
     Uncompact(Vec<u64>, i32),
     Hex(u64),
@@ -263,6 +265,8 @@ impl AOp {
             AOp::Boundary(c, n) => json!({"f": "cell_to_boundary", "id": subj::hex(*c), "segments": n}),
             AOp::Children(c) => json!({"f": "cell_to_children", "id": subj::hex(*c)}),
             AOp::Parent(c) => json!({"f": "cell_to_parent", "id": subj::hex(*c)}),
+            AOp::ChildrenTo(c, r) => json!({"f": "cell_to_children", "id": subj::hex(*c), "res": r}),
+            AOp::ParentTo(c, r) => json!({"f": "cell_to_parent", "id": subj::hex(*c), "res": r}),
             AOp::Compact(v) => json!({"f": "compact", "cells": h(v)}),
             AOp::Uncompact(v, r) => json!({"f": "uncompact", "cells": h(v), "res": r}),
             AOp::Hex(c) => json!({"f": "u64_to_hex", "id": subj::hex(*c)}),
@@ -284,8 +288,14 @@ impl AOp {
             "lonlat_to_cell" => AOp::Lookup(v["lon"].as_f64()?, v["lat"].as_f64()?, v["res"].as_i64()? as i32),
             "cell_to_lonlat" => AOp::Centre(id()?),
             "cell_to_boundary" => AOp::Boundary(id()?, v["segments"].as_i64().map(|x| x as i32)),
-            "cell_to_children" => AOp::Children(id()?),
-            "cell_to_parent" => AOp::Parent(id()?),
+            "cell_to_children" => match v["res"].as_i64() {
+                Some(r) => AOp::ChildrenTo(id()?, r as i32),
+                None => AOp::Children(id()?),
+            },
+            "cell_to_parent" => match v["res"].as_i64() {
+                Some(r) => AOp::ParentTo(id()?, r as i32),
+                None => AOp::Parent(id()?),
+            },
             "compact" => AOp::Compact(cells()?),
             "uncompact" => AOp::Uncompact(cells()?, v["res"].as_i64()? as i32),
             "u64_to_hex" => AOp::Hex(id()?),
@@ -318,6 +328,8 @@ pub fn run_aop(op: &AOp) -> Res {
         AOp::Boundary(c, n) => a5::cell_to_boundary(*c, Some(a5::core::cell::CellToBoundaryOptions { closed_ring: true, segments: *n })).map(|v| v.iter().flat_map(|l| [l.longitude().to_bits(), l.latitude().to_bits()]).collect()),
         AOp::Children(c) => a5::cell_to_children(*c, None),
         AOp::Parent(c) => a5::cell_to_parent(*c, None).map(|p| vec![p]),
+        AOp::ChildrenTo(c, r) => a5::cell_to_children(*c, Some(*r)),
+        AOp::ParentTo(c, r) => a5::cell_to_parent(*c, Some(*r)).map(|p| vec![p]),
         AOp::Compact(v) => a5::compact(v),
         AOp::Uncompact(v, r) => a5::uncompact(v, *r),
         AOp::Hex(c) => Ok(a5::u64_to_hex(*c).bytes().map(|b| b as u64).collect()),
@@ -725,6 +737,27 @@ pub fn family_circuits(quick: bool) -> Vec<Vec<AOp>> {
         ops.push(AOp::Compact(vec![chain[28], chain[27], chain[3]]));
         ops.push(AOp::Compact(crate::refcodec::all_cells(1)));
         out.push(ops);
+    }
+    // (2b) collision families of hierarchy calls with explicit targets (cells that differ in one component)
+    for r in if quick { vec![28] } else { vec![14, 28, 29] } {
+        let ops: Vec<AOp> = crate::checks::longlists::collision_calls(r)
+            .into_iter()
+            .filter_map(|c| match c {
+                crate::checks::longlists::Call::Children(x, Some(t)) => Some(AOp::ChildrenTo(x, t)),
+                crate::checks::longlists::Call::Children(x, None) => Some(AOp::Children(x)),
+                crate::checks::longlists::Call::Parent(x, Some(t)) => Some(AOp::ParentTo(x, t)),
+                crate::checks::longlists::Call::Parent(x, None) => Some(AOp::Parent(x)),
+                _ => None,
+            })
+            .collect();
+        out.push(ops);
+    }
+    // refused deep expansions followed by ordinary ones
+    {
+        let base = crate::refcodec::all_cells(0);
+        let q = crate::refcodec::children(base[5])[2];
+        let r5 = crate::refcodec::descendants(q, 5)[77];
+        out.push(vec![AOp::ChildrenTo(r5, 29), AOp::ChildrenTo(q, 29), AOp::ChildrenTo(0, 29), AOp::ChildrenTo(r5, 6), AOp::ChildrenTo(q, 2), AOp::Children(base[5]), AOp::Children(0), AOp::ChildrenTo(r5, 4), AOp::ParentTo(r5, 9), AOp::ParentTo(r5, 1), AOp::Uncompact(vec![r5], 7)]);
     }
     // (3) Hilbert walks of many depths and all orientations
     {
